@@ -1,4 +1,5 @@
 import ChythonModel.Props.C12
+import Mathlib.Data.List.Nodup
 /-!
 # Helper lemmas for C20: the relative parity `relOdd` of arrangements of the same 3 / 4 atoms is a cocycle
 (`relOdd x z = relOdd x y ^^ relOdd y z`), symmetric and zero on the diagonal.  Built on the C12 enumeration lemmas.
@@ -95,5 +96,54 @@ theorem relOdd_chain3 {a b c : Nat} (hnd : [a, b, c].Nodup) (o o' e e' : List Na
     relOdd_lift3 hnd h hf o o' ho ho']
   exact relOdd_chain4 hf _ _ _ _ (perm_append_single h ho) (perm_append_single h ho') (perm_append_single h he)
     (perm_append_single h he')
+
+/-- renaming atoms injectively does not change relative parity -/
+theorem relOdd_map_inj (f : Nat → Nat) (o e : List Nat) (hinj : ∀ x ∈ o, ∀ y ∈ o, f x = f y → x = y)
+    (he : ∀ x ∈ e, x ∈ o) : relOdd (o.map f) (e.map f) = relOdd o e := by
+  unfold relOdd
+  congr 1
+  rw [List.map_map]
+  apply List.map_congr_left
+  intro x hx
+  simp only [Function.comp]
+  exact pos_map_inj f o x (fun y hy h => hinj y hy x (he x hx) h)
+
+/-- the four-neighbour translation commutes with an injective renumbering of the atoms -/
+theorem translateTetra_map4 (f : Nat → Nat) (a b c d : Nat) (hnd : [a, b, c, d].Nodup)
+    (hinj : ∀ x ∈ [a, b, c, d], ∀ y ∈ [a, b, c, d], f x = f y → x = y) (order env : List Nat)
+    (ho : order.Perm [a, b, c, d]) (he : env.Perm [a, b, c, d]) (isH isH' : Nat → Bool) (st st' : Option Bool) (s : Bool) :
+    translateTetra (order.map f) (env.map f) isH' st' (some s) = translateTetra order env isH st (some s) := by
+  obtain ⟨w, x, y, z, rfl, hn⟩ := perm4_literal hnd ho
+  have hn' : ([w, x, y, z].map f).Nodup := by
+    refine List.Nodup.map_on ?_ hn
+    intro p hp q hq h
+    exact hinj p (ho.subset hp) q (ho.subset hq) h
+  rw [translateTetra_perm4 w x y z hn env (he.trans ho.symm) isH st s]
+  have := translateTetra_perm4 (f w) (f x) (f y) (f z) hn' (env.map f) ((he.trans ho.symm).map f) isH' st' s
+  simp only [List.map_cons, List.map_nil] at this ⊢
+  rw [this]
+  have r := relOdd_map_inj f [w, x, y, z] env (fun p hp q hq h => hinj p (ho.subset hp) q (ho.subset hq) h)
+    (fun p hp => (he.trans ho.symm).subset hp)
+  simp only [List.map_cons, List.map_nil] at r
+  rw [r]
+
+/-- same with three neighbours and an implicit hydrogen -/
+theorem translateTetra_map3 (f : Nat → Nat) (a b c : Nat) (hnd : [a, b, c].Nodup)
+    (hinj : ∀ x ∈ [a, b, c], ∀ y ∈ [a, b, c], f x = f y → x = y) (order env : List Nat)
+    (ho : order.Perm [a, b, c]) (he : env.Perm [a, b, c]) (isH isH' : Nat → Bool) (st st' : Option Bool) (s : Bool) :
+    translateTetra (order.map f) (env.map f) isH' st' (some s) = translateTetra order env isH st (some s) := by
+  obtain ⟨x, y, z, rfl, hn⟩ := perm3_literal hnd ho
+  have hn' : ([x, y, z].map f).Nodup := by
+    refine List.Nodup.map_on ?_ hn
+    intro p hp q hq h
+    exact hinj p (ho.subset hp) q (ho.subset hq) h
+  rw [translateTetra_implicitH x y z hn env (he.trans ho.symm) isH st s]
+  have := translateTetra_implicitH (f x) (f y) (f z) hn' (env.map f) ((he.trans ho.symm).map f) isH' st' s
+  simp only [List.map_cons, List.map_nil] at this ⊢
+  rw [this]
+  have r := relOdd_map_inj f [x, y, z] env (fun p hp q hq h => hinj p (ho.subset hp) q (ho.subset hq) h)
+    (fun p hp => (he.trans ho.symm).subset hp)
+  simp only [List.map_cons, List.map_nil] at r
+  rw [r]
 
 end ChythonModel.Proofs.C20
